@@ -40,7 +40,10 @@ func postCheckoutCommand(cmd *cobra.Command, args []string) {
 		os.Exit(0)
 	}
 
-	if args[2] == "1" && args[0] != "0000000000000000000000000000000000000000" {
+	// Between identical revisions no file differs, yet Git may just have
+	// re-created files (`git checkout -f` throwing local edits away): the
+	// difference says nothing then, and everything has to be looked at.
+	if args[2] == "1" && args[0] != "0000000000000000000000000000000000000000" && args[0] != args[1] {
 		postCheckoutRevChange(lockClient, args[0], args[1])
 	} else {
 		postCheckoutFileChange(lockClient)
